@@ -3,7 +3,7 @@
 (and any extra properties listed in its meta.json "also"), sequentially; results -> seeded/RESULTS.json."""
 import json, os, subprocess, sys, re, glob, time
 ROOT = os.path.dirname(os.path.dirname(os.path.abspath(__file__)))
-names = sys.argv[1:] or sorted(os.path.basename(p.rstrip("/")) for p in glob.glob(os.path.join(ROOT, "seeded", "*/")))
+names = sys.argv[1:] or sorted(os.path.basename(p.rstrip("/")) for p in glob.glob(os.path.join(ROOT, "seeded", "*/")) if os.path.exists(os.path.join(p, "meta.json")))
 respath = os.path.join(ROOT, "seeded", "RESULTS.json")
 results = json.load(open(respath)) if os.path.exists(respath) else {}
 have = set(os.path.basename(p)[:-5] for p in glob.glob(os.path.join(ROOT, "tools", "props.d", "C*.json")))
